@@ -47,13 +47,13 @@
 
 // Create an object that can access a record, but don't do anything yet.
 DBObject::DBObject(DB::Connection *connection, ObjectStoreToken *token)
-	: _mutex(MutexFactory::i()->getMutex()), _connection(connection), _token(token), _objectId(0), _transaction(NULL), _transactionFailed(false)
+	: _mutex(MutexFactory::i()->getMutex()), _connection(connection), _token(token), _objectId(0), _transaction(NULL), _transactionFailed(false), _readFailed(false)
 {
 
 }
 
 DBObject::DBObject(DB::Connection *connection, ObjectStoreToken *token, long long objectId)
-	: _mutex(MutexFactory::i()->getMutex()), _connection(connection), _token(token), _objectId(objectId), _transaction(NULL), _transactionFailed(false)
+	: _mutex(MutexFactory::i()->getMutex()), _connection(connection), _token(token), _objectId(objectId), _transaction(NULL), _transactionFailed(false), _readFailed(false)
 {
 }
 
@@ -733,6 +733,23 @@ static bool encodeAttributeMap(ByteString& value, const std::map<CK_ATTRIBUTE_TY
 	return true;
 }
 
+// An attribute that cannot be read is not an attribute that does not exist: callers
+// store a default for a missing attribute (overwriting the stored value) and take the
+// absence of CKA_SENSITIVE or CKA_EXTRACTABLE for permission to reveal a key. When the
+// query itself fails the object becomes invalid, like an object file that cannot be read.
+static DB::Result lookup(DB::Statement &statement, bool &readFailed, long long objectId)
+{
+	DB::Statement::ReturnCode rc = statement.step();
+	if (rc == DB::Statement::ReturnCodeRow)
+		return DB::Result(statement);
+	if (rc == DB::Statement::ReturnCodeError)
+	{
+		ERROR_MSG("Failed to read object %lld from the database, the object is invalid from now on",objectId);
+		readFailed = true;
+	}
+	return DB::Result();
+}
+
 OSAttribute *DBObject::accessAttribute(CK_ATTRIBUTE_TYPE type)
 {
 	switch (attributeKind(type))
@@ -748,9 +765,11 @@ OSAttribute *DBObject::accessAttribute(CK_ATTRIBUTE_TYPE type)
 				_objectId);
 			if (!statement.isValid())
 			{
+				// The query could not even be prepared: unreadable, not absent
+				_readFailed = true;
 				return NULL;
 			}
-			DB::Result result = _connection->perform(statement);
+			DB::Result result = lookup(statement, _readFailed, _objectId);
 			if (!result.isValid())
 			{
 				return NULL;
@@ -789,9 +808,11 @@ OSAttribute *DBObject::accessAttribute(CK_ATTRIBUTE_TYPE type)
 				_objectId);
 			if (!statement.isValid())
 			{
+				// The query could not even be prepared: unreadable, not absent
+				_readFailed = true;
 				return NULL;
 			}
-			DB::Result result = _connection->perform(statement);
+			DB::Result result = lookup(statement, _readFailed, _objectId);
 			if (!result.isValid())
 			{
 				return NULL;
@@ -830,9 +851,11 @@ OSAttribute *DBObject::accessAttribute(CK_ATTRIBUTE_TYPE type)
 				_objectId);
 			if (!statement.isValid())
 			{
+				// The query could not even be prepared: unreadable, not absent
+				_readFailed = true;
 				return NULL;
 			}
-			DB::Result result = _connection->perform(statement);
+			DB::Result result = lookup(statement, _readFailed, _objectId);
 			if (!result.isValid())
 			{
 				return NULL;
@@ -873,9 +896,11 @@ OSAttribute *DBObject::accessAttribute(CK_ATTRIBUTE_TYPE type)
 					_objectId);
 			if (!statement.isValid())
 			{
+				// The query could not even be prepared: unreadable, not absent
+				_readFailed = true;
 				return NULL;
 			}
-			DB::Result result = _connection->perform(statement);
+			DB::Result result = lookup(statement, _readFailed, _objectId);
 			if (!result.isValid())
 			{
 				return NULL;
@@ -923,9 +948,11 @@ OSAttribute *DBObject::accessAttribute(CK_ATTRIBUTE_TYPE type)
 				_objectId);
 			if (!statement.isValid())
 			{
+				// The query could not even be prepared: unreadable, not absent
+				_readFailed = true;
 				return NULL;
 			}
-			DB::Result result = _connection->perform(statement);
+			DB::Result result = lookup(statement, _readFailed, _objectId);
 			if (!result.isValid())
 			{
 				return NULL;
@@ -988,6 +1015,9 @@ OSAttribute* DBObject::getAttributeDB(CK_ATTRIBUTE_TYPE type)
 		ERROR_MSG("Cannot read from invalid object.");
 		return NULL;
 	}
+
+	// Nothing of an object that could not be read is handed out any more
+	if (_readFailed) return NULL;
 
 	// If a transaction is in progress, we can just return the attribute from the transaction.
 	if (_transaction)
@@ -1115,9 +1145,15 @@ CK_ATTRIBUTE_TYPE DBObject::nextAttributeType(CK_ATTRIBUTE_TYPE type)
 		_objectId, type);
 	if (!statement.isValid())
 	{
-		return CKA_CLASS;
+		_readFailed = true;
 	}
-	DB::Result result = _connection->perform(statement);
+	DB::Result result = _readFailed ? DB::Result() : lookup(statement, _readFailed, _objectId);
+	if (_readFailed)
+	{
+		// Not the end of the list: name an attribute that does not exist, so that
+		// the caller's loop fails instead of taking the object for complete
+		return CK_UNAVAILABLE_INFORMATION;
+	}
 	if (!result.isValid() || result.fieldIsNull(1))
 	{
 		return CKA_CLASS;
@@ -1150,6 +1186,12 @@ bool DBObject::setAttribute(CK_ATTRIBUTE_TYPE type, const OSAttribute& attribute
 
 	// Retrieve and existing attribute if it exists or NULL if it doesn't
 	OSAttribute *attr = getAttributeDB(type);
+	if (_readFailed)
+	{
+		ERROR_MSG("Cannot update object %lld, it could not be read",_objectId);
+		if (_transaction) _transactionFailed = true;
+		return false;
+	}
 
 	// Update an existing attribute...
 	if (attr)
@@ -1337,6 +1379,12 @@ bool DBObject::deleteAttribute(CK_ATTRIBUTE_TYPE type)
 
 	// Retrieve and existing attribute if it exists or NULL if it doesn't
 	OSAttribute *attr = getAttributeDB(type);
+	if (_readFailed)
+	{
+		ERROR_MSG("Cannot update object %lld, it could not be read",_objectId);
+		if (_transaction) _transactionFailed = true;
+		return false;
+	}
 	if (attr == NULL)
 	{
 		ERROR_MSG("Cannot delete an attribute that doesn't exist.");
@@ -1408,7 +1456,7 @@ bool DBObject::isValid()
 {
 	MutexLocker lock(_mutex);
 
-	return _objectId != 0 && _connection != NULL;
+	return _objectId != 0 && _connection != NULL && !_readFailed;
 }
 
 // Start an attribute set transaction; this method is used when - for
